@@ -45,7 +45,11 @@ CFG = dict(
     ],
     assumptions=[
         "transaction ids stay below 2^64 and log sizes below 2^63 (no integer wrap-around in offsets)",
-        "the cLog write buffer holds MaxActiveTransactions entries (true for the defaults: 4 MB vs 1000 x 44 B)",
+        "commit-log entries appended by a commit loop that stops midway stay in the write buffer until the next rewind "
+        "(true for the defaults: 4 MB buffer vs 1000 x 44 B, 512 MB chunks). NOT true with a small FileSize: chunk rotation "
+        "flushes them, SetOffset never truncates the file (property C17), and a later reopen counts them as committed: "
+        "corpus/C02/stale-clog-tail-small-filesize.json replays a real-store execution (synced, external allowance, FileSize "
+        "256) after which tx 5's PrevAlh is not the Alh of tx 4 -- outside the model, reported to the lead, not a known finding",
     ],
 )
 
